@@ -14,8 +14,8 @@ def custom_native(ip, runner):
 
 def build(chk, ip, runner):
     chk.design_ref = 'DESIGN.md section 5 C12'
-    chk.units = c12_gex.run_units()
-    chk.stubs = c12_gex.stubs()
+    chk.units = c12_gex.run_units() + c12_gex.send_init_units()
+    chk.stubs = c12_gex.stubs() + c12_gex.send_init_stubs()
     chk.customs = [custom_native]
     chk.level = 'other'
     chk.explanation = ('GEXTest.run verified against an arbitrary server (the contract of _send_init returns unconstrained answers); '
